@@ -114,3 +114,87 @@ theorem exists_ready (P ord sp : List E) (hP : WPF (P.map (·.name)) P)
 end Reorder
 #print axioms Reorder.exists_ready
 #print axioms Reorder.wpf_append_ready
+
+namespace Reorder
+
+theorem filter_split_perm (sp : List E) (p : E → Bool) :
+    (sp.filter p ++ sp.filter (fun e => !p e)).Perm sp := by
+  induction sp with
+  | nil => simp
+  | cons a l ih =>
+    simp only [List.filter_cons]
+    cases hp : p a with
+    | true => simpa using ih
+    | false =>
+      simp only [Bool.false_eq_true, if_false, Bool.not_false, if_true]
+      exact (List.perm_middle).trans (List.Perm.cons a ih)
+
+/-- membership in the ready batch, for a duplicate-free remainder -/
+theorem mem_ready_iff (sp : List E) (p : E → Bool) (e : E) (he : e ∈ sp) :
+    (sp.filter p).contains e = p e := by
+  cases hp : p e with
+  | true => simp [List.mem_filter, he, hp]
+  | false => simp [List.mem_filter, hp]
+
+/-- **the reordering of `from_proto`**: whatever order the decoder produced (`sp`: the entries grouped by
+    type), if they are exactly the entries of a parents-first space `P`, the result lists every entry once
+    (a permutation) and again puts every parent before its conditional children — without ever needing the
+    fallback branch -/
+theorem reorder_spec (P : List E) (hP : WPF (P.map (·.name)) P) :
+    ∀ (fuel : Nat) (ord sp : List E), sp.length ≤ fuel → WPF (P.map (·.name)) ord →
+      (∀ e ∈ P, e ∈ ord ∨ e ∈ sp) → (∀ e ∈ sp, e ∈ P) →
+      WPF (P.map (·.name)) (reorder (P.map (·.name)) fuel ord sp) ∧
+      (reorder (P.map (·.name)) fuel ord sp).Perm (ord ++ sp) := by
+  intro fuel
+  induction fuel with
+  | zero =>
+    intro ord sp hlen hw _ _
+    have : sp = [] := List.eq_nil_of_length_eq_zero (by omega)
+    subst this
+    simp only [reorder, List.append_nil]
+    exact ⟨hw, List.Perm.refl _⟩
+  | succ fuel ih =>
+    intro ord sp hlen hw hcover hsub
+    cases sp with
+    | nil => simp only [reorder, List.append_nil]; exact ⟨hw, List.Perm.refl _⟩
+    | cons a l =>
+      simp only [reorder]
+      obtain ⟨e0, he0, hr0⟩ := exists_ready P ord (a :: l) hP hcover hsub (by simp)
+      have hne : (a :: l).filter (isReady (P.map (·.name)) (ord.map (·.name))) ≠ [] := by
+        intro hnil
+        have : e0 ∈ (a :: l).filter (isReady (P.map (·.name)) (ord.map (·.name))) := List.mem_filter.mpr ⟨he0, hr0⟩
+        rw [hnil] at this; cases this
+      simp only [hne, if_false]
+      generalize hr : (a :: l).filter (isReady (P.map (·.name)) (ord.map (·.name))) = r at hne
+      have hrsub : ∀ e ∈ r, e ∈ a :: l ∧ isReady (P.map (·.name)) (ord.map (·.name)) e = true := by
+        intro e he; rw [← hr] at he; exact List.mem_filter.mp he
+      have hrest_eq : (a :: l).filter (fun e => !r.contains e) =
+          (a :: l).filter (fun e => !isReady (P.map (·.name)) (ord.map (·.name)) e) := by
+        apply List.filter_congr
+        intro e he
+        rw [← hr, mem_ready_iff (a :: l) _ e he]
+      have hlen' : ((a :: l).filter (fun e => !r.contains e)).length ≤ fuel := by
+        have h1 := (filter_split_perm (a :: l) (isReady (P.map (·.name)) (ord.map (·.name)))).length_eq
+        rw [hr, ← hrest_eq, List.length_append] at h1
+        have : 0 < r.length := List.length_pos_iff.mpr hne
+        simp only [List.length_cons] at h1 hlen
+        omega
+      have hw' : WPF (P.map (·.name)) (ord ++ r) := wpf_append_ready _ ord r hw (fun e he => (hrsub e he).2)
+      have hcover' : ∀ e ∈ P, e ∈ ord ++ r ∨ e ∈ (a :: l).filter (fun e => !r.contains e) := by
+        intro e he
+        rcases hcover e he with h | h
+        · exact Or.inl (List.mem_append.mpr (Or.inl h))
+        · by_cases hre : e ∈ r
+          · exact Or.inl (List.mem_append.mpr (Or.inr hre))
+          · exact Or.inr (List.mem_filter.mpr ⟨h, by simpa using hre⟩)
+      have hsub' : ∀ e ∈ (a :: l).filter (fun e => !r.contains e), e ∈ P :=
+        fun e he => hsub e (List.mem_filter.mp he).1
+      obtain ⟨h1, h2⟩ := ih (ord ++ r) _ hlen' hw' hcover' hsub'
+      refine ⟨h1, h2.trans ?_⟩
+      rw [List.append_assoc]
+      apply List.Perm.append_left
+      rw [hrest_eq, ← hr]
+      exact filter_split_perm _ _
+
+end Reorder
+#print axioms Reorder.reorder_spec
